@@ -76,6 +76,15 @@ Theorem tv_trigger_inactive : forall t c g l g' l' es,
   (In (ret_ev 1%Z) es -> at_ l = T_unlock Top).
 Proof. exact trigger_inactive. Qed.
 
+(* activate() returns false exactly when its (single) load reads activated = true; that call consists of this one
+   step, which changes nothing but the ghost clock: a refused activate() does not clear `triggered` *)
+Theorem tv_refused_activate_noop : forall t c g l g' l' es,
+  cur_op (at_ l) = Some Activate -> tstep t c g l = Some (g', l', es) ->
+  (In (ret_ev 0%Z) es <-> at_ l = A_load /\ activated g = true) /\
+  (In (ret_ev 0%Z) es -> g' = tick g /\ at_ l' = Idle /\ es = [ESC K_LOAD O_ACT 1%Z; ret_ev 0%Z]) /\
+  (In (ret_ev 1%Z) es -> at_ l = A_unlockA).
+Proof. exact refused_activate_noop. Qed.
+
 (* the variable is inactive at the moment reset() returns.  No proviso is needed for this instant: the only
    activated=true store is made under activeLock, which the returning reset() still owns.  (A concurrent
    activate() that is already past its own check can of course re-activate right afterwards.) *)
